@@ -199,9 +199,9 @@ class SO3(SMPose):
         :SymPy: not supported
         """
         if len(self) == 1:
-            return base.tr2eul(self.A, unit=unit)
+            return base.tr2eul(self.A, unit=unit, flip=flip)
         else:
-            return np.array([base.tr2eul(x, unit=unit) for x in self.A]).T
+            return np.array([base.tr2eul(x, unit=unit, flip=flip) for x in self.A]).T
 
     def rpy(self, unit='rad', order='zyx'):
         """
@@ -1182,9 +1182,9 @@ class SE3(SO3):
         :seealso: :func:`~spatialmath.base.transforms3d.trexp`, :func:`~spatialmath.base.transformsNd.skew`
         """
         if base.isvector(S, 6):
-            return cls(base.trexp(base.getvector(S)), check=False)
+            return cls(base.trexp(base.getvector(S), check=check), check=False)
         else:
-            return cls([base.trexp(s) for s in S], check=False)
+            return cls([base.trexp(s, check=check) for s in S], check=False)
             
 
     @classmethod
